@@ -2,6 +2,8 @@
 mod verif_kani {
     use super::*;
     use crate::crypto::cose::CertificateTrustPolicy;
+    use std::panic as sp;
+    fn stub_catch<F: FnOnce() -> R + std::panic::UnwindSafe, R>(f: F) -> std::thread::Result<R> { Ok(f()) }
 
     struct DummySigner;
     impl Signer for DummySigner {
@@ -28,6 +30,7 @@ mod verif_kani {
     #[kani::stub(Context::signer, stub_signer)]
     #[kani::stub(Store::sign_manifest, stub_sign_manifest)]
     #[kani::stub(Store::get_composed_manifest, stub_compose)]
+    #[kani::stub(sp::catch_unwind, stub_catch)]
     #[kani::unwind(3)]
     fn embeddable_size_contract() {
         let mut b = Builder::default();
